@@ -213,8 +213,23 @@ func TestC12(t *testing.T) {
 						c.After = len(declEnd)
 					}
 				}
-				parts := append(append(append([]string{}, toks[:pos]...), c.Inserted), toks[pos:]...)
-				c.Variant = strings.Join(parts, " ")
+				// usually separated by blanks; for characters that cannot combine with a neighbouring
+				// token into something legal also glued to the token before and/or after it
+				left, right := " ", " "
+				if strings.Contains("@#$~^!?\"`€\x00\x7f\x1b\xffé§", c.Inserted) {
+					switch d.Pick(4, "glue") {
+					case 1:
+						left = ""
+					case 2:
+						right = ""
+					case 3:
+						left, right = "", ""
+					}
+				}
+				c.Variant = strings.TrimSpace(strings.Join(toks[:pos], " ") + left + c.Inserted + right + strings.Join(toks[pos:], " "))
+				if pos == 0 {
+					c.Variant = c.Inserted + right + strings.Join(toks, " ")
+				}
 			}
 			if len(c.Variant) < 500 {
 				h.S.Sample(map[string]string{"kind": c.Kind, "text": c.Variant})
